@@ -1,3 +1,303 @@
-import Tickit.Model.Modes
+import Tickit.Proof.Modes
+import Tickit.Gen.ModeLayout
+/-
+  C12 — Every terminal mode switched on is switched off again by pause/teardown.
+
+  A *history* is a list of `Modes.Op` (control settings, pens, text, the terminal's replies, pause,
+  resume, teardown, the toplevel instance's tick) performed on a freshly built terminal, directly
+  (`toplevel = false`) or owned by a toplevel instance.  `validFrom .running ops = some ph` says that the
+  history keeps the documented contract (`Modes.phaseNext`, `Modes.opOk`) and ends in phase `ph`.
+  The terminal is the byte-level VT mode-state interpreter `Modes.VT`, started in any mode state `m0`
+  in which the four listed modes are off (`VModes.standard`; blink, shape, DECLRMM are arbitrary).
+
+  The model is parameterised by `Modes.Cfg`: which of the three repair sites the working tree has
+  (read from the source on every run into `Gen.ModeLayout`).  Every theorem is stated for every `Cfg`
+  with the hypotheses it needs; the counterexample theorems show that the hypotheses are necessary.
+-/
 namespace Tickit.Props.C12
+open Tickit Tickit.Modes Tickit.Gen
+
+/-! ### facts read from the C source (obligations that break when the source changes) -/
+
+theorem mode_for_mouse_agrees (k : Int) :
+    modeForMouse k = (ModeLayout.mode_for_mouse_cases.lookup k).getD ModeLayout.mode_for_mouse_default := by
+  unfold modeForMouse
+  simp only [ModeLayout.mode_for_mouse_cases, ModeLayout.mode_for_mouse_default, List.lookup]
+  by_cases h1 : k = 1
+  · subst h1; rfl
+  · by_cases h2 : k = 2
+    · subst h2; rfl
+    · by_cases h3 : k = 3
+      · subst h3; rfl
+      · have e1 : (k == 1) = false := by simpa using h1
+        have e2 : (k == 2) = false := by simpa using h2
+        have e3 : (k == 3) = false := by simpa using h3
+        simp [h1, h2, h3, e1, e2, e3]
+
+theorem sgr_onoff_agrees :
+    ModeLayout.sgr_on = [0, 30, 40, 1, 4, 3, 7, 9, 10, 5, 70] ∧
+    ModeLayout.sgr_off = [0, 39, 49, 22, 24, 23, 27, 29, 10, 25, 75] := by decide
+
+theorem pen_attr_order :
+    [ModeLayout.pen_fg, ModeLayout.pen_bg, ModeLayout.pen_bold, ModeLayout.pen_under, ModeLayout.pen_italic,
+     ModeLayout.pen_reverse, ModeLayout.pen_strike, ModeLayout.pen_altfont, ModeLayout.pen_blink,
+     ModeLayout.pen_sizepos, ModeLayout.n_pen_attrs] = [1, 2, 3, 4, 5, 6, 7, 8, 9, 10, 11] ∧
+    [ModeLayout.sizepos_normal, ModeLayout.sizepos_superscript, ModeLayout.sizepos_subscript] = [0, 2, 3] ∧
+    [ModeLayout.under_none, ModeLayout.under_single] = [0, 1] := by decide
+
+theorem mouse_enum :
+    [ModeLayout.mouse_off, ModeLayout.mouse_click, ModeLayout.mouse_drag, ModeLayout.mouse_move] = [0, 1, 2, 3] := by decide
+
+theorem ctl_numbers_distinct :
+    [ModeLayout.ctl_altscreen, ModeLayout.ctl_cursorvis, ModeLayout.ctl_mouse, ModeLayout.ctl_cursorblink,
+     ModeLayout.ctl_cursorshape, ModeLayout.ctl_icon_text, ModeLayout.ctl_title_text, ModeLayout.ctl_icontitle_text,
+     ModeLayout.ctl_keypad_app, ModeLayout.ctl_colors, ModeLayout.ctl_cap_cursorshape, ModeLayout.ctl_cap_slrm,
+     ModeLayout.ctl_cap_csi_sub_colon, ModeLayout.ctl_cap_rgb8].Nodup := by decide
+
+/-- The shadow's bit-fields are wide enough for the values the documented API admits. -/
+theorem shadow_widths :
+    1 ≤ ModeLayout.w_mode_altscreen ∧ 1 ≤ ModeLayout.w_mode_cursorvis ∧ 1 ≤ ModeLayout.w_mode_cursorblink ∧
+    2 ≤ ModeLayout.w_mode_cursorshape ∧ 2 ≤ ModeLayout.w_mode_mouse ∧ 1 ≤ ModeLayout.w_mode_keypad := by decide
+
+/-! ### the terminal after a history -/
+
+/-- The system after building and performing `ops`. -/
+def sysAfter (cfg : Cfg) (toplevel : Bool) (ops : List Op) : Sys := (Sys.run cfg (Sys.build toplevel).1 ops).1
+
+/-- The terminal (started in modes `m0`, default rendition) having read every byte written by building
+    and by `ops`. -/
+def vtAfter (cfg : Cfg) (toplevel : Bool) (m0 : VModes) (ops : List Op) : VT :=
+  VT.feed (VT.feed ⟨.ground, m0, Attrs.default⟩ (Sys.build toplevel).2) (Sys.run cfg (Sys.build toplevel).1 ops).2
+
+/-- What the program last set successfully, and the pen it asked for. -/
+def ghostAfter (cfg : Cfg) (toplevel : Bool) (ops : List Op) : Ghost := ghostRun cfg (Sys.build toplevel).1 {} ops
+
+/-- No operation of the history triggers one of the recorded defects of an unrepaired `cfg`. -/
+def TriggerFree (cfg : Cfg) (toplevel : Bool) (ops : List Op) : Prop := noTrigger cfg (Sys.build toplevel).1 {} ops = true
+
+instance (cfg : Cfg) (toplevel : Bool) (ops : List Op) : Decidable (TriggerFree cfg toplevel ops) := by
+  unfold TriggerFree; infer_instance
+
+theorem after_inv (cfg : Cfg) (toplevel : Bool) (m0 : VModes) (ops : List Op) (ph : Phase)
+    (hm0 : m0.standard = true) (hv : validFrom .running ops = some ph) (hnt : TriggerFree cfg toplevel ops) :
+    MInv cfg (sysAfter cfg toplevel ops) (vtAfter cfg toplevel m0 ops) ph (ghostAfter cfg toplevel ops) :=
+  run_inv cfg ops _ _ .running ph {} (build_inv cfg toplevel m0 hm0) hv hnt
+
+/-- With the keypad recorded and the replies guarded nothing is a trigger. -/
+theorem triggerFree_of_repaired (cfg : Cfg) (hk : cfg.keypadRecorded = true) (hr : cfg.repliesGuarded = true)
+    (toplevel : Bool) (ops : List Op) : TriggerFree cfg toplevel ops := by
+  unfold TriggerFree
+  generalize (Sys.build toplevel).1 = s
+  generalize ({} : Ghost) = g
+  induction ops generalizing s g with
+  | nil => rfl
+  | cons op rest ih =>
+    simp only [noTrigger, Bool.and_eq_true, Bool.not_eq_true']
+    refine ⟨?_, ih _ _⟩
+    cases op <;> simp [trigger, hk, hr]
+    rename_i c v
+    cases c with
+    | none => rfl
+    | some c => cases c <;> simp [trigger, hk]
+
+/-! ### `shadow_inv`, `resume_reestablishes` -/
+
+/-- **shadow_inv.** While the terminal is running (in particular after every resume), the terminal's
+    alternate-screen, cursor-visibility, mouse-reporting and keypad modes are exactly the values last
+    set through the control interface. -/
+theorem shadow_inv_partial (cfg : Cfg) (toplevel : Bool) (m0 : VModes) (ops : List Op)
+    (hm0 : m0.standard = true) (hv : validFrom .running ops = some .running) (hnt : TriggerFree cfg toplevel ops) :
+    modesShown (vtAfter cfg toplevel m0 ops).modes (ghostAfter cfg toplevel ops) = true := by
+  have h := after_inv cfg toplevel m0 ops .running hm0 hv hnt
+  exact modesShown_of cfg _ _ _ (h.shown rfl) h.ghost
+
+theorem shadow_inv (cfg : Cfg) (hk : cfg.keypadRecorded = true) (hr : cfg.repliesGuarded = true)
+    (toplevel : Bool) (m0 : VModes) (ops : List Op)
+    (hm0 : m0.standard = true) (hv : validFrom .running ops = some .running) :
+    modesShown (vtAfter cfg toplevel m0 ops).modes (ghostAfter cfg toplevel ops) = true :=
+  shadow_inv_partial cfg toplevel m0 ops hm0 hv (triggerFree_of_repaired cfg hk hr toplevel ops)
+
+theorem ghostRun_append (cfg : Cfg) (a b : List Op) : ∀ (s : Sys) (g : Ghost),
+    ghostRun cfg s g (a ++ b) = ghostRun cfg (Sys.run cfg s a).1 (ghostRun cfg s g a) b := by
+  induction a with
+  | nil => intro s g; rfl
+  | cons op rest ih => intro s g; simp only [List.cons_append, ghostRun, Sys.run]; exact ih _ _
+
+theorem validFrom_append (a b : List Op) : ∀ (ph : Phase),
+    validFrom ph (a ++ b) = (validFrom ph a).bind (validFrom · b) := by
+  induction a with
+  | nil => intro ph; rfl
+  | cons op rest ih =>
+    intro ph
+    simp only [List.cons_append, validFrom]
+    split
+    · cases phaseNext ph op with
+      | none => rfl
+      | some p => simp only [Option.bind_some]; exact ih p
+    · rfl
+
+theorem noTrigger_append_pause_resume (cfg : Cfg) (ops : List Op) : ∀ (s : Sys) (g : Ghost),
+    noTrigger cfg s g ops = true → noTrigger cfg s g (ops ++ [.pause, .resume]) = true := by
+  induction ops with
+  | nil => intro s g _; rfl
+  | cons op rest ih =>
+    intro s g h
+    simp only [List.cons_append, noTrigger, Bool.and_eq_true] at h ⊢
+    exact ⟨h.1, ih _ _ h.2⟩
+
+/-- **resume_reestablishes.** A pause/resume cycle appended to a history that left the terminal running
+    ends with the terminal's modes equal to the values last set before the pause: resume re-establishes
+    exactly the logical modes. -/
+def ResumeReestablishes (cfg : Cfg) : Prop :=
+  ∀ (toplevel : Bool) (m0 : VModes) (ops : List Op), m0.standard = true →
+    validFrom .running ops = some .running →
+    modesShown (vtAfter cfg toplevel m0 (ops ++ [.pause, .resume])).modes (ghostAfter cfg toplevel ops) = true
+
+theorem resume_reestablishes_partial (cfg : Cfg) (toplevel : Bool) (m0 : VModes) (ops : List Op)
+    (hm0 : m0.standard = true) (hv : validFrom .running ops = some .running)
+    (hnt : TriggerFree cfg toplevel ops) :
+    modesShown (vtAfter cfg toplevel m0 (ops ++ [.pause, .resume])).modes (ghostAfter cfg toplevel ops) = true := by
+  have hv' : validFrom .running (ops ++ [.pause, .resume]) = some .running := by
+    rw [validFrom_append, hv]; rfl
+  have hnt' : TriggerFree cfg toplevel (ops ++ [.pause, .resume]) := noTrigger_append_pause_resume cfg ops _ _ hnt
+  have h := shadow_inv_partial cfg toplevel m0 _ hm0 hv' hnt'
+  have hg : ghostAfter cfg toplevel (ops ++ [.pause, .resume]) = ghostAfter cfg toplevel ops := by
+    unfold ghostAfter; rw [ghostRun_append]; rfl
+  rwa [hg] at h
+
+theorem resume_reestablishes (cfg : Cfg) (hk : cfg.keypadRecorded = true) (hr : cfg.repliesGuarded = true) :
+    ResumeReestablishes cfg :=
+  fun toplevel m0 ops hm0 hv =>
+    resume_reestablishes_partial cfg toplevel m0 ops hm0 hv (triggerFree_of_repaired cfg hk hr toplevel ops)
+
+/-! ### `teardown_restores` -/
+
+/-- **teardown_restores** (full statement). For every history inside the contract: if it ends paused or
+    torn down the terminal is back in the modes it started in, with the default rendition; and
+    destruction (from any phase) leaves it so. -/
+def TeardownRestores (cfg : Cfg) : Prop :=
+  ∀ (toplevel : Bool) (m0 : VModes) (ops : List Op) (ph : Phase), m0.standard = true →
+    validFrom .running ops = some ph →
+    (ph ≠ .running → restoredOk (vtAfter cfg toplevel m0 ops) m0 = true) ∧
+    restoredOk (VT.feed (vtAfter cfg toplevel m0 ops) (sysAfter cfg toplevel ops).destroy) m0 = true
+
+theorem teardown_restores_partial (cfg : Cfg) (toplevel : Bool) (m0 : VModes) (ops : List Op) (ph : Phase)
+    (hm0 : m0.standard = true) (hv : validFrom .running ops = some ph) (hnt : TriggerFree cfg toplevel ops) :
+    (ph ≠ .running → restoredOk (vtAfter cfg toplevel m0 ops) m0 = true) ∧
+    restoredOk (VT.feed (vtAfter cfg toplevel m0 ops) (sysAfter cfg toplevel ops).destroy) m0 = true := by
+  have h := after_inv cfg toplevel m0 ops ph hm0 hv hnt
+  have h0 := off_of_standard m0 hm0
+  constructor
+  · intro hne
+    obtain ⟨ho, ha⟩ := h.off hne
+    exact restoredOk_of _ m0 h0 ho ha
+  · obtain ⟨ho, ha⟩ := destroy_off cfg _ _ ph _ h
+    exact restoredOk_of _ m0 h0 ho ha
+
+theorem teardown_restores (cfg : Cfg) (hk : cfg.keypadRecorded = true) (hr : cfg.repliesGuarded = true) :
+    TeardownRestores cfg :=
+  fun toplevel m0 ops ph hm0 hv =>
+    teardown_restores_partial cfg toplevel m0 ops ph hm0 hv (triggerFree_of_repaired cfg hk hr toplevel ops)
+
+/-! ### `getctl_last_set` -/
+
+/-- **getctl_last_set** (full statement). After every history inside the contract, every control reads
+    back the value last successfully set (booleans as 0/1). -/
+def GetctlLastSet (cfg : Cfg) : Prop :=
+  ∀ (toplevel : Bool) (ops : List Op) (ph : Phase), validFrom .running ops = some ph →
+    getctlOk (sysAfter cfg toplevel ops).term.drv (ghostAfter cfg toplevel ops) = true
+
+theorem getctl_last_set_partial (cfg : Cfg) (toplevel : Bool) (ops : List Op) (ph : Phase)
+    (hv : validFrom .running ops = some ph) (hnt : TriggerFree cfg toplevel ops) :
+    getctlOk (sysAfter cfg toplevel ops).term.drv (ghostAfter cfg toplevel ops) = true :=
+  getctlOk_of cfg _ _ (after_inv cfg toplevel {} ops ph rfl hv hnt).ghost
+
+theorem getctl_last_set (cfg : Cfg) (hk : cfg.keypadRecorded = true) (hr : cfg.repliesGuarded = true) :
+    GetctlLastSet cfg :=
+  fun toplevel ops ph hv => getctl_last_set_partial cfg toplevel ops ph hv (triggerFree_of_repaired cfg hk hr toplevel ops)
+
+/-! ### the unrepaired tree: counterexamples (the hypotheses above are necessary) -/
+
+/-- Keypad application mode not recorded (the working tree as found; repair pinned away by
+    `t/60tickit-setup.c`): `ctl keypad_app 1; unref` leaves the terminal in application-keypad mode. -/
+def keypadHistory : List Op := [.ctl (some .keypadApp) 1]
+
+set_option maxRecDepth 8000 in
+theorem teardown_restores_counterexample_keypad (p r : Bool) : ¬ TeardownRestores ⟨false, p, r⟩ := by
+  intro h
+  have h1 := (h false {} keypadHistory .running rfl rfl).2
+  revert h1
+  cases p <;> cases r <;> decide
+
+set_option maxRecDepth 8000 in
+/-- … and through the toplevel instance: `tick; unref` (what `t/60tickit-setup.c` pins). -/
+theorem teardown_restores_counterexample_setup (p r : Bool) : ¬ TeardownRestores ⟨false, p, r⟩ := by
+  intro h
+  have h1 := (h true {} [.tick false] .running rfl rfl).2
+  revert h1
+  cases p <;> cases r <;> decide
+
+set_option maxRecDepth 8000 in
+theorem getctl_last_set_counterexample_keypad (p r : Bool) : ¬ GetctlLastSet ⟨false, p, r⟩ := by
+  intro h
+  have h1 := h false keypadHistory .running rfl
+  revert h1
+  cases p <;> cases r <;> decide
+
+/-- Replies not guarded: `ctl cursorvis 0; <DECRPM ?25;1$y arrives>; unref` leaves the cursor hidden,
+    and the control reads 1 after 0 was set. -/
+def lateReplyHistory : List Op := [.ctl (some .cursorvis) 0, .replyMode 25 1]
+
+set_option maxRecDepth 8000 in
+theorem teardown_restores_counterexample_late_reply (k p : Bool) : ¬ TeardownRestores ⟨k, p, false⟩ := by
+  intro h
+  have h1 := (h false {} lateReplyHistory .running rfl rfl).2
+  revert h1
+  cases k <;> cases p <;> decide
+
+set_option maxRecDepth 8000 in
+theorem getctl_last_set_counterexample_late_reply (k p : Bool) : ¬ GetctlLastSet ⟨k, p, false⟩ := by
+  intro h
+  have h1 := h false lateReplyHistory .running rfl
+  revert h1
+  cases k <;> cases p <;> decide
+
+/-- The triggers are exactly what the partial theorems exclude: both counterexample histories are
+    inside the contract and are *not* trigger-free for the unrepaired variants. -/
+example : validFrom .running keypadHistory = some .running ∧ ¬ TriggerFree ⟨false, true, true⟩ false keypadHistory := by
+  decide
+example : validFrom .running lateReplyHistory = some .running ∧ ¬ TriggerFree ⟨true, true, false⟩ false lateReplyHistory := by
+  decide
+
+/-! ### non-vacuity: a non-trivial history inside the contract, for both kinds of terminal -/
+
+/-- Replies, every listed control, a pen, text, two pause/resume cycles, redundant settings. -/
+def sampleHistory : List Op :=
+  [.replyMode 25 1, .replyMode 12 2, .replyShape 2, .ctl (some .altscreen) 1, .ctl (some .cursorvis) 0,
+   .ctl (some .mouse) 2, .ctl (some .mouse) 2, .ctl (some .keypadApp) 1, .ctl (some .cursorshape) 3,
+   .setpen (fun a => if a = .bold then some 1 else if a = .fg then some 200 else none), .print [104, 105],
+   .pause, .resume, .ctl (some .mouse) 3, .setstr (some .titleText) [116], .pause, .resume, .ctl (some .altscreen) 0]
+
+example : validFrom .running sampleHistory = some .running := by decide
+example : validFrom .running (sampleHistory ++ [.pause]) = some .paused := by decide
+example : validFrom .running ([.tick false, .usealt 0] ++ sampleHistory ++ [.teardown]) = some .stopped := by decide
+
+set_option maxRecDepth 8000 in
+/-- The history really switches modes on (so the theorems are not about an idle terminal) … -/
+example : (vtAfter Cfg.repaired false {} sampleHistory).modes.mouse = 1003 ∧
+    (vtAfter Cfg.repaired false {} sampleHistory).modes.keypadApp = true ∧
+    (vtAfter Cfg.repaired false {} sampleHistory).modes.cursorVisible = false := by decide
+
+/-- … and the theorems apply to it. -/
+example : modesShown (vtAfter Cfg.repaired false {} sampleHistory).modes (ghostAfter Cfg.repaired false sampleHistory) = true :=
+  shadow_inv Cfg.repaired rfl rfl false {} sampleHistory rfl (by decide)
+example : restoredOk (VT.feed (vtAfter Cfg.repaired true {} sampleHistory) (sysAfter Cfg.repaired true sampleHistory).destroy) {} = true :=
+  (teardown_restores Cfg.repaired rfl rfl true {} sampleHistory .running rfl (by decide)).2
+example : getctlOk (sysAfter Cfg.repaired false sampleHistory).term.drv (ghostAfter Cfg.repaired false sampleHistory) = true :=
+  getctl_last_set Cfg.repaired rfl rfl false sampleHistory .running (by decide)
+/-- The partial theorems are not vacuous on the tree as found: a history with mouse, cursor and
+    alternate screen but no keypad and prompt replies is trigger-free. -/
+example : TriggerFree ⟨false, false, false⟩ false
+    [.replyMode 25 1, .ctl (some .altscreen) 1, .ctl (some .cursorvis) 0, .ctl (some .mouse) 1, .pause, .resume] := by decide
+
 end Tickit.Props.C12
